@@ -3,12 +3,14 @@ import Driver.C16
 import Driver.C16Mon
 import Driver.C18
 import Driver.C18Mon
+import Driver.C19
 
 def suites : List (String × Driver.Suite) :=
   Driver.C16.suites ++
   Driver.C16Mon.suites ++
   Driver.C18.suites ++
-  Driver.C18Mon.suites
+  Driver.C18Mon.suites ++
+  Driver.C19.suites
 
 def main (args : List String) : IO UInt32 := do
   match args with
